@@ -18,6 +18,7 @@ RECURSIVE RenderTree(_)
 RenderTree(t) ==
   CASE t.k = "path" -> (IF t.lead THEN "::" ELSE "") \o JoinWith(t.segs, "::")
                        \o (IF Len(t.args) = 0 THEN "" ELSE "<" \o JoinWith([i \in DOMAIN t.args |-> RenderTree(t.args[i])], ", ") \o ">")
+    [] t.k = "qpath" -> (IF t.lead THEN "::" ELSE "") \o JoinWith([sg \in DOMAIN t.segs |-> t.segs[sg] \o (IF Len(t.segargs[sg]) = 0 THEN "" ELSE "<" \o JoinWith([i \in DOMAIN t.segargs[sg] |-> RenderTree(t.segargs[sg][i])], ", ") \o ">")], "::")
     [] t.k = "tup" -> "(" \o JoinWith([i \in DOMAIN t.elems |-> RenderTree(t.elems[i])], ", ") \o (IF Len(t.elems) = 1 THEN ",)" ELSE ")")
     [] t.k = "arr" -> "[" \o RenderTree(t.of) \o "; " \o ToString(t.len) \o "]"
     [] OTHER -> t.text
